@@ -45,6 +45,10 @@ CLAIMED = {
    text='TLC checks that the dictionary-style reference concatenation meets the declarative statement (concat-axis labels = inputs labels in input order; aligned axis = union / intersection; each cell is the cell of the input that owns its row, fill where that input lacks the label), conserves cells and rejects duplicate concat labels, for every choice of aligned labels of a small scope (MC_C11); every enumerated case is replayed on real Frames on random layouts; recorded random from_concat / from_concat_items / Series.from_concat / from_overlay calls (1-4 inputs, overlapping / permuted / equal labels, fill values, auto index, generator inputs, both axes, all vstack strategies through random layouts) are validated by TLC (Trace_C11).',
    ref='DESIGN.md section 4 (C11)', note='Values and labels are compared numerically (an empty float64 input index turns int labels into equal floats).',
    technique='TLA+ spec SFConcat model checked with TLC; state dump replayed into the code; recorded results validated by a TLC trace spec'),
+ 'C07': dict(
+   text='TLC checks NoLoss on the whole dtype-resolution table (SFCoerce.Resolve over 24 dtype tokens, every ordered pair, symbolic element classes with their representability written out): the resolved dtype holds every natural element of both operands except in the cells named KnownLossy, and a strict instance without the exception fails (negative control = the library's int64/uint64-with-float design decision); the table is replayed against util.resolve_dtype and np.result_type; 19 merge sites (concat, reindex/shift fill, assign element/array, fillna, overlay, insert, from_records, iterables, row consolidation, IndexGO.append, FrameGO growth ...) are executed on dtype pairs x 15 element values and TLC (Trace_C07) judges every recorded merge: each stored element is the supplied one (SameElement), the result dtype is the resolution, untouched columns keep their dtype.',
+   ref='DESIGN.md section 4 (C07)', note='Instants and durations are compared unit-free; a rejected merge (exception) stores nothing and is not a coercion. str with bytes is outside the claim.',
+   technique='TLA+ spec SFCoerce model checked with TLC; resolution table replayed against the code; recorded merges validated by a TLC trace spec'),
 }
 REASON_TODO = 'not yet built in this round: the specification module for this property is still being written (see DESIGN.md section 9)'
 ALL = ['C%02d' % i for i in range(1, 21)]
